@@ -1,6 +1,6 @@
 (** Witnesses of the findings on the v4 client state machine.  F4/F8/F9 are about the code before
     the fix: commits (Client/State4Orig.v) and are shown NOT to reproduce on the current model;
-    F18/F19 are about the current code (C11 known findings, classes K18/K19 of Run4.v).
+    F29/F30 are about the current code (C11 known findings, classes K29/K30 of Run4.v).
     All by [vm_compute] on closed terms. *)
 From Rumqtt Require Import Client.Run4.
 
@@ -74,20 +74,20 @@ Lemma f7_state_half :
   /\ contract (init 1 false) [pq Q1 1; pq Q1 2; pq Q1 3] = false.
 Proof. vm_compute. repeat split. Qed.
 
-(** F19 (current code, C11): subscribe (id 1), publish (id 2), publish (id 1), nothing acked:
+(** F30 (current code, C11): subscribe (id 1), publish (id 2), publish (id 1), nothing acked:
     [clean] returns id 1 before id 2 — not the order they were sent in. *)
-Definition f19_history : list op := [Out (RSubscribe 1); pq Q1 1; pq Q1 2].
-Lemma f19_witness :
-  k19 f19_history = true /\ k18 2 false f19_history = false /\ contract (init 2 false) f19_history = true
-  /\ clean_after step 2 f19_history = Some [RPublish (mkPub Q1 1 2 2); RPublish (mkPub Q1 2 1 1)].
+Definition f30_history : list op := [Out (RSubscribe 1); pq Q1 1; pq Q1 2].
+Lemma f30_witness :
+  k30 f30_history = true /\ k29 2 false f30_history = false /\ contract (init 2 false) f30_history = true
+  /\ clean_after step 2 f30_history = Some [RPublish (mkPub Q1 1 2 2); RPublish (mkPub Q1 2 1 1)].
 Proof. vm_compute. repeat split. Qed.
 
-(** F18 (current code, C11): publish (id 1), failure, reconnect WITHOUT session (nothing replayed),
+(** F29 (current code, C11): publish (id 1), failure, reconnect WITHOUT session (nothing replayed),
     publish (id 2), publish (id 1), failure: [clean] returns id 1 before id 2. *)
-Definition f18_history : list op := [pq Q1 1; Clean; pq Q1 2; pq Q1 3].
-Lemma f18_witness :
-  k18 2 false f18_history = true /\ k19 f18_history = false /\ contract (init 2 false) f18_history = true
-  /\ clean_after step 2 f18_history = Some [RPublish (mkPub Q1 1 3 3); RPublish (mkPub Q1 2 2 2)].
+Definition f29_history : list op := [pq Q1 1; Clean; pq Q1 2; pq Q1 3].
+Lemma f29_witness :
+  k29 2 false f29_history = true /\ k30 f29_history = false /\ contract (init 2 false) f29_history = true
+  /\ clean_after step 2 f29_history = Some [RPublish (mkPub Q1 1 3 3); RPublish (mkPub Q1 2 2 2)].
 Proof. vm_compute. repeat split. Qed.
 
 Lemma f4_summary :
